@@ -861,14 +861,53 @@ func hashUniverse(steps []sx.Sexp, implOnly bool) ([]sx.Sexp, bool) {
 			for _, p := range a {
 				add(p.List[0])
 			}
-		case "put", "mput":
+		case "fromArr", "fromFlat", "wrap2", "shv", "parsetop", "parsemix":
+			// implementation-only constructors: WrapHashFromArray (array of pairs / flat array), WrapHash2, WrapStringPValue, the
+			// parser's top-level `k => v` and entries among the elements of an array literal
+			if !implOnly || !validPairs(a) || (st.Tag() == "parsetop" && len(a) != 1) {
+				return nil, false
+			}
+			for _, p := range a {
+				if st.Tag() == "shv" && (p.List[0].IsList || isIntAtom(p.List[0])) {
+					return nil, false
+				}
+				add(p.List[0])
+			}
+		case "indexed":
+			if !implOnly {
+				return nil, false
+			}
+			for i, v := range a {
+				if _, ok := valStr(v); !ok {
+					return nil, false
+				}
+				add(sx.A(strconv.Itoa(i)))
+			}
+		case "addAllArr", "addAllFlat":
+			if !implOnly || len(a) < 1 || !isRef(a[0]) || !validPairs(a[1:]) {
+				return nil, false
+			}
+			for _, p := range a[1:] {
+				add(p.List[0])
+			}
+		case "entries", "unique":
+			if !implOnly || len(a) != 1 || !isRef(a[0]) {
+				return nil, false
+			}
+		case "put", "mput", "add", "adda":
+			if (st.Tag() == "add" || st.Tag() == "adda") && !implOnly {
+				return nil, false
+			}
 			if len(a) != 3 || !isRef(a[0]) || !add(a[1]) {
 				return nil, false
 			}
 			if _, ok := valStr(a[2]); !ok {
 				return nil, false
 			}
-		case "merge", "mputall":
+		case "merge", "mputall", "addAll", "mergeom":
+			if (st.Tag() == "addAll" || st.Tag() == "mergeom") && !implOnly {
+				return nil, false
+			}
 			if len(a) != 2 || !isRef(a[0]) || !isRef(a[1]) {
 				return nil, false
 			}
@@ -1062,6 +1101,219 @@ func execHash(steps []sx.Sexp, implOnly bool) core.Result {
 				failClass = "literal-wrong"
 				changed = changed || len(r.keys) > 0
 			}
+		case "fromArr", "fromFlat", "wrap2", "shv", "indexed", "parsetop", "parsemix":
+			var ps []pair
+			if op == "indexed" {
+				for i, v := range a {
+					vs, _ := valStr(v)
+					ps = append(ps, pair{strconv.Itoa(i), vs})
+				}
+			} else {
+				ps, _ = pairsOf(a)
+			}
+			r := newRef()
+			inKeys := []string{}
+			for _, p := range ps {
+				r.put(p.k, p.v)
+				inKeys = append(inKeys, p.k)
+			}
+			var h, h2 px.OrderedMap
+			var r2 *refMap
+			switch op {
+			case "fromArr":
+				vs := []px.Value{}
+				for _, p := range a {
+					vs = append(vs, types.WrapValues([]px.Value{valOf(p.List[0]), valOf(p.List[1])}))
+				}
+				fault = safely(func() { h = types.WrapHashFromArray(types.WrapValues(vs)) })
+			case "fromFlat":
+				// a flat array [k, v, k, v …] is read as such unless the type of its elements is an Array type (then every
+				// element is taken for a pair): only flat arrays with a scalar among their elements
+				vs := []px.Value{}
+				scalar := false
+				for _, p := range a {
+					vs = append(vs, valOf(p.List[0]), valOf(p.List[1]))
+					scalar = scalar || !p.List[0].IsList || !p.List[1].IsList
+				}
+				if !scalar && len(a) > 0 {
+					res = "skip"
+					break
+				}
+				fault = safely(func() { h = types.WrapHashFromArray(types.WrapValues(vs)) })
+			case "wrap2":
+				vs := []px.Value{}
+				for _, e := range entriesOf(a) {
+					vs = append(vs, e)
+				}
+				fault = safely(func() { h = types.WrapHash2(types.WrapValues(vs)) })
+			case "shv":
+				sh := hash.NewStringHash(len(a))
+				for _, p := range a {
+					sh.Put(p.List[0].MustStr(), valOf(p.List[1]))
+				}
+				// the string hash itself holds one value per key (replaced in place)
+				inKeys = r.keys
+				fault = safely(func() { h = types.WrapStringPValue(sh) })
+			case "indexed":
+				vs := []px.Value{}
+				for _, v := range a {
+					vs = append(vs, valOf(v))
+				}
+				fault = safely(func() { h = types.IndexedFromArray(types.WrapValues(vs)) })
+			case "parsetop":
+				if !plainText(a[0].List[0]) || !plainText(a[0].List[1]) {
+					res = "skip"
+					break
+				}
+				fault = safely(func() { h = types.Parse(text(a[0].List[0]) + " => " + text(a[0].List[1])).(px.OrderedMap) })
+			case "parsemix":
+				// [7, k => v …, 8, k => v …]: each run of entries becomes one hash, the other elements stay where they are
+				plain := len(a) >= 2
+				for _, p := range a {
+					plain = plain && plainText(p.List[0]) && plainText(p.List[1])
+				}
+				if !plain {
+					res = "skip"
+					break
+				}
+				half := len(a) / 2
+				r, r2 = newRef(), newRef()
+				parts := []string{"7"}
+				k1, k2 := []string{}, []string{}
+				for i, p := range a {
+					if i == half {
+						parts = append(parts, "8")
+					}
+					parts = append(parts, text(p.List[0])+" => "+text(p.List[1]))
+					if i < half {
+						r.put(ps[i].k, ps[i].v)
+						k1 = append(k1, ps[i].k)
+					} else {
+						r2.put(ps[i].k, ps[i].v)
+						k2 = append(k2, ps[i].k)
+					}
+				}
+				inKeys = k1
+				fault = safely(func() {
+					l := types.Parse("[" + strings.Join(parts, ", ") + "]").(px.List)
+					if l.Len() != 4 || show(l.At(0)) != "7" || show(l.At(2)) != "8" {
+						fs.add("literal-wrong", "step %d %s: the array literal has %d elements: %s", si, st, l.Len(), l)
+						return
+					}
+					h, h2 = l.At(1).(px.OrderedMap), l.At(3).(px.OrderedMap)
+				})
+				if h != nil && h2 != nil {
+					pool = append(pool, &hslot{h: h2, ref: r2, tainted: hasDup(k2)})
+				}
+			}
+			if h != nil {
+				made = &hslot{h: h, ref: r, tainted: hasDup(inKeys)}
+				pool = append(pool, made)
+				failClass = "literal-wrong"
+				changed = changed || len(r.keys) > 0
+			}
+		case "add", "adda", "addAll", "addAllArr", "addAllFlat", "mergeom":
+			// the List forms of Merge (implementation only): Add of an entry / of a two-element array, AddAll of a hash / of an
+			// array of pairs / of a flat array; Merge with an ordered map of a foreign type
+			s := slot(0)
+			if s == nil {
+				res = "bad-ref"
+				break
+			}
+			arg := newRef()
+			argTainted := false
+			var call func() px.List
+			switch op {
+			case "add", "adda":
+				k, _ := valStr(a[1])
+				v, _ := valStr(a[2])
+				arg.put(k, v)
+				if op == "add" {
+					call = func() px.List { return s.h.Add(types.WrapHashEntry(valOf(a[1]), valOf(a[2]))) }
+				} else {
+					call = func() px.List { return s.h.Add(types.WrapValues([]px.Value{valOf(a[1]), valOf(a[2])})) }
+				}
+			case "addAll", "mergeom":
+				t := slot(1)
+				if t == nil {
+					res = "bad-ref"
+					break
+				}
+				arg = t.ref.copy()
+				argTainted = t.tainted
+				if op == "addAll" {
+					call = func() px.List { return s.h.AddAll(t.h) }
+				} else {
+					call = func() px.List { return s.h.Merge(foreignMap{t.h}) }
+				}
+			default:
+				ps, _ := pairsOf(a[1:])
+				keys := []string{}
+				vs := []px.Value{}
+				scalar := len(ps) == 0
+				for i, p := range ps {
+					arg.put(p.k, p.v)
+					keys = append(keys, p.k)
+					kv, vv := valOf(a[1+i].List[0]), valOf(a[1+i].List[1])
+					if op == "addAllArr" {
+						vs = append(vs, types.WrapValues([]px.Value{kv, vv}))
+					} else {
+						vs = append(vs, kv, vv)
+						scalar = scalar || !a[1+i].List[0].IsList || !a[1+i].List[1].IsList
+					}
+				}
+				if op == "addAllFlat" && !scalar {
+					res = "skip"
+					break
+				}
+				argTainted = hasDup(keys)
+				call = func() px.List { return s.h.AddAll(types.WrapValues(vs)) }
+			}
+			if call == nil {
+				break
+			}
+			var h px.OrderedMap
+			fault = safely(func() { h = call().(px.OrderedMap) })
+			if unsupported(fault) && op == "addAll" {
+				// declined (AddAll of a mutable hash): not a wrong answer
+				fault = nil
+				res = op + "=unsupported"
+				break
+			}
+			if h != nil {
+				r := s.ref.copy()
+				for _, k := range arg.keys {
+					if r.put(k, arg.vals[k]) {
+						changed = true
+					}
+				}
+				made = &hslot{h: h, ref: r, tainted: s.tainted || argTainted}
+				pool = append(pool, made)
+				failClass = "merge-order"
+			}
+		case "entries", "unique":
+			s := slot(0)
+			if s == nil {
+				res = "bad-ref"
+				break
+			}
+			var h px.OrderedMap
+			fault = safely(func() {
+				if op == "entries" {
+					h = s.h.Entries().(px.OrderedMap)
+				} else {
+					h = s.h.Unique().(px.OrderedMap)
+				}
+			})
+			if h != nil {
+				// for a mutable hash: a hash of its own (must not follow later changes of the builder)
+				if s.mutable != nil && h == px.OrderedMap(s.mutable) {
+					fs.add("hash-alias-of-mutable", "step %d %s: answers the mutable hash itself", si, st)
+				}
+				made = &hslot{h: h, ref: s.ref.copy(), tainted: s.tainted}
+				pool = append(pool, made)
+				failClass = "literal-wrong"
+			}
 		case "mnew":
 			m := types.NewMutableHash()
 			made = &hslot{h: m, mutable: m, ref: newRef()}
@@ -1112,8 +1364,9 @@ func execHash(steps []sx.Sexp, implOnly bool) core.Result {
 				res = "bad-ref"
 				break
 			}
-			if s.mutable != nil {
-				// Delete of nothing returns the receiver itself, i.e. an alias of the mutable hash: not an immutable value
+			if s.mutable != nil && !implOnly {
+				// (the model's pool machine has no Delete on a mutable hash; the implementation-only lines exercise it: the answer is
+				// a hash of its own also when nothing was removed)
 				res = "skip"
 				break
 			}
@@ -1397,6 +1650,9 @@ func execHash(steps []sx.Sexp, implOnly bool) core.Result {
 					fs.add(cl, "step %d %s: pool[%d] impl %s reference %s", si, st, pi, gs, exp)
 				}
 			}
+			if s == made && !s.tainted && !hasDup(got.keys) && gs == exp.String() {
+				hashReads(s.h, s.ref, uni, &fs, si, st)
+			}
 			s.last = gs
 		}
 	}
@@ -1441,61 +1697,392 @@ func hashClass(exp, got *obs, opClass string) string {
 	return "lookup-wrong"
 }
 
+// foreignMap: an ordered map that is neither a *types.Hash nor a *types.MutableHashValue (Merge must then read it through EachPair)
+type foreignMap struct{ px.OrderedMap }
+
+// hashReads: a hash without repeated keys answers every read-only query of px.List / px.OrderedMap as the sequence of its
+// entries in insertion order (implementation only: these queries are not part of the canonical output)
+func hashReads(h px.OrderedMap, r *refMap, uni []sx.Sexp, fs *failures, si int, st sx.Sexp) {
+	bad := func(what, got, exp string) {
+		fs.add("hash-read", "step %d %s: %s answers %s, the ordered map answers %s", si, st, what, got, exp)
+	}
+	join := func(vs []string) string { return strings.Join(vs, " ") }
+	n := len(r.keys)
+	ents, vals, flat := []string{}, []string{}, []string{}
+	for _, k := range r.keys {
+		ents = append(ents, k+"="+r.vals[k])
+		vals = append(vals, r.vals[k])
+		flat = append(flat, k, r.vals[k])
+	}
+	if e := safely(func() {
+		if h.Len() != n || h.IsEmpty() != (n == 0) {
+			bad("Len/IsEmpty", fmt.Sprint(h.Len(), h.IsEmpty()), fmt.Sprint(n, n == 0))
+		}
+		collect := func(each func(px.Consumer)) string {
+			got := []string{}
+			each(func(v px.Value) { got = append(got, show(v)) })
+			return join(got)
+		}
+		if g := collect(h.Each); g != join(ents) {
+			bad("Each", g, join(ents))
+		}
+		if g := collect(h.EachKey); g != join(r.keys) {
+			bad("EachKey", g, join(r.keys))
+		}
+		if g := collect(h.EachValue); g != join(vals) {
+			bad("EachValue", g, join(vals))
+		}
+		got, exp := []string{}, []string{}
+		h.EachWithIndex(func(v px.Value, i int) { got = append(got, strconv.Itoa(i)+":"+show(v)) })
+		for i, x := range ents {
+			exp = append(exp, strconv.Itoa(i)+":"+x)
+		}
+		if join(got) != join(exp) {
+			bad("EachWithIndex", join(got), join(exp))
+		}
+		got = []string{}
+		for _, v := range h.AppendTo([]px.Value{types.WrapInteger(77)}) {
+			got = append(got, show(v))
+		}
+		if join(got) != strings.TrimSpace("77 "+join(ents)) {
+			bad("AppendTo", join(got), "77 "+join(ents))
+		}
+		if ae, ok := h.(interface {
+			AppendEntriesTo([]*types.HashEntry) []*types.HashEntry
+		}); ok {
+			got = []string{}
+			for _, v := range ae.AppendEntriesTo([]*types.HashEntry{types.WrapHashEntry(types.WrapInteger(77), types.WrapInteger(78))}) {
+				got = append(got, show(v))
+			}
+			if join(got) != strings.TrimSpace("77=78 "+join(ents)) {
+				bad("AppendEntriesTo", join(got), "77=78 "+join(ents))
+			}
+		}
+		if ar, ok := h.(px.Arrayable); ok {
+			exp = []string{}
+			for _, k := range r.keys {
+				exp = append(exp, "(a "+k+" "+r.vals[k]+")")
+			}
+			if g := seqText(ar.AsArray().(px.Value)); g != refSeqStr(exp) {
+				bad("AsArray", g, refSeqStr(exp))
+			}
+		}
+		for _, same := range []struct {
+			what string
+			l    px.List
+		}{{"Entries", h.Entries()}, {"Unique", h.Unique()}} {
+			if g := collect(same.l.Each); g != join(ents) || same.l.Len() != n {
+				bad(same.what, g, join(ents))
+			}
+		}
+		if g := seqText(h.Flatten().(px.Value)); g != refSeqStr(flattenTexts(flat)) {
+			bad("Flatten", g, refSeqStr(flattenTexts(flat)))
+		}
+		allStr := true
+		for _, k := range r.keys {
+			allStr = allStr && strings.HasPrefix(k, "x")
+		}
+		if h.AllKeysAreStrings() != allStr {
+			bad("AllKeysAreStrings", fmt.Sprint(!allStr), fmt.Sprint(allStr))
+		}
+		// predicates over entries: "is the i-th entry" (the first three), everything, nothing
+		preds := []func(string) bool{func(string) bool { return true }, func(string) bool { return false }}
+		for i := 0; i < n && i < 3; i++ {
+			x := ents[i]
+			preds = append(preds, func(y string) bool { return y == x })
+		}
+		for pi, pred := range preds {
+			p := func(v px.Value) bool { return pred(show(v)) }
+			bp := func(k, v px.Value) bool { return pred(show(k) + "=" + show(v)) }
+			sel, rej, all, any, found := []string{}, []string{}, true, false, "_"
+			for _, x := range ents {
+				if pred(x) {
+					sel = append(sel, x)
+					any = true
+					if found == "_" {
+						found = x
+					}
+				} else {
+					rej = append(rej, x)
+					all = false
+				}
+			}
+			name := "pred" + strconv.Itoa(pi)
+			if g := collect(h.Select(p).Each); g != join(sel) {
+				bad("Select "+name, g, join(sel))
+			}
+			if g := collect(h.Reject(p).Each); g != join(rej) {
+				bad("Reject "+name, g, join(rej))
+			}
+			if g := collect(h.SelectPairs(bp).Each); g != join(sel) {
+				bad("SelectPairs "+name, g, join(sel))
+			}
+			if g := collect(h.RejectPairs(bp).Each); g != join(rej) {
+				bad("RejectPairs "+name, g, join(rej))
+			}
+			if h.All(p) != all || h.Any(p) != any || h.AllPairs(bp) != all || h.AnyPair(bp) != any {
+				bad("All/Any/AllPairs/AnyPair "+name, fmt.Sprint(h.All(p), h.Any(p), h.AllPairs(bp), h.AnyPair(bp)), fmt.Sprint(all, any, all, any))
+			}
+			g := "_"
+			if v, ok := h.Find(p); ok {
+				g = show(v)
+			}
+			if g != found {
+				bad("Find "+name, g, found)
+			}
+		}
+		if g := seqText(h.Map(func(v px.Value) px.Value { return v.(px.MapEntry).Key() }).(px.Value)); g != refSeqStr(r.keys) {
+			bad("Map", g, refSeqStr(r.keys))
+		}
+		exp = []string{}
+		for _, k := range r.keys {
+			exp = append(exp, k+"=(a "+r.vals[k]+")")
+		}
+		if g := collect(h.MapValues(func(v px.Value) px.Value { return types.WrapValues([]px.Value{v}) }).Each); g != join(exp) {
+			bad("MapValues", g, join(exp))
+		}
+		exp = []string{}
+		for _, k := range r.keys {
+			exp = append(exp, r.vals[k]+"="+k)
+		}
+		if !hasDup(vals) { // swapped: value => key (a hash only when the values are distinct)
+			if g := collect(h.MapEntries(func(e px.MapEntry) px.MapEntry { return types.WrapHashEntry(e.Value(), e.Key()) }).Each); g != join(exp) {
+				bad("MapEntries", g, join(exp))
+			}
+		}
+		pairUp := func(x, y px.Value) px.Value { return types.WrapValues([]px.Value{x, y}) }
+		fold := func(memo string, xs []string) string {
+			for _, x := range xs {
+				memo = "(a " + memo + " " + x + ")"
+			}
+			return memo
+		}
+		if g, exp := show(h.Reduce2(types.WrapInteger(77), pairUp)), fold("77", ents); g != exp {
+			bad("Reduce2", g, exp)
+		}
+		expR := "_"
+		if n > 0 {
+			expR = fold(ents[0], ents[1:])
+		}
+		if g := show(h.Reduce(pairUp)); g != expR {
+			bad("Reduce", g, expR)
+		}
+		// the producer forms of the lookups, over the universe
+		for _, k := range uni {
+			ks, _ := valStr(k)
+			exp := r.get(ks)
+			if !r.has(ks) {
+				exp = "-7"
+			}
+			dflt := func() px.Value { return types.WrapInteger(-7) }
+			if g := show(h.Get3(valOf(k), dflt)); g != exp {
+				bad("Get3 "+ks, g, exp)
+			}
+			if isKeyAtom(k) {
+				if g := show(h.Get6(k.MustStr(), dflt)); g != exp {
+					bad("Get6 "+ks, g, exp)
+				}
+				g, exp := "_", "_"
+				if e, ok := h.GetEntry(k.MustStr()); ok {
+					g = show(e)
+				}
+				if r.has(ks) {
+					exp = ks + "=" + r.get(ks)
+				}
+				if g != exp {
+					bad("GetEntry "+ks, g, exp)
+				}
+			}
+		}
+		// the case-insensitive lookup answers the FIRST entry whose key, printed, equals the name up to the case of letters; the
+		// string map holds every entry under its printed key (compared when the printed keys are distinct: all keys strings)
+		printed := func(k string) (string, bool) {
+			if strings.HasPrefix(k, "x") {
+				b, _ := sx.A(k).AsBytes()
+				return string(b), true
+			}
+			return k, !strings.HasPrefix(k, "(")
+		}
+		for _, k := range uni {
+			if !isKeyAtom(k) {
+				continue
+			}
+			name := strings.ToUpper(k.MustStr())
+			exp := "_"
+			for _, rk := range r.keys {
+				if p, ok := printed(rk); ok && strings.EqualFold(p, name) {
+					exp = rk + "=" + r.vals[rk]
+					break
+				}
+			}
+			g := "_"
+			if e, ok := h.GetEntryFold(name); ok {
+				g = show(e)
+			}
+			if g != exp {
+				bad("GetEntryFold "+sx.Str(name).Atom, g, exp)
+			}
+		}
+		if allStr {
+			m := h.ToStringMap()
+			got = []string{}
+			for _, k := range r.keys {
+				p, _ := printed(k)
+				if v, ok := m[p]; ok {
+					got = append(got, k+"="+show(v))
+				}
+			}
+			if len(m) != n || join(got) != join(ents) {
+				bad("ToStringMap", fmt.Sprint(len(m))+" entries: "+join(got), join(ents))
+			}
+		}
+		// Equals / ToKey: equal to (and keyed as) the hash of the same entries built afresh, in this order and in the reverse order
+		// (the order of the entries is not part of the equality of hashes); different from a hash with one entry more, one entry
+		// fewer, one value replaced, one key replaced
+		mk := func(keys []string, repl map[string]string) *types.Hash {
+			es := []*types.HashEntry{}
+			for _, k := range keys {
+				v := r.vals[k]
+				if nv, ok := repl[k]; ok {
+					v = nv
+				}
+				es = append(es, types.WrapHashEntry(valFromText(k), valFromText(v)))
+			}
+			return types.WrapHash(es)
+		}
+		rev := make([]string, n)
+		for i, k := range r.keys {
+			rev[n-1-i] = k
+		}
+		hv := h.(px.Value)
+		key := string(px.ToKey(hv))
+		for _, o := range []*types.Hash{mk(r.keys, nil), mk(rev, nil)} {
+			if !hv.Equals(o, nil) || !o.Equals(hv, nil) || key != string(px.ToKey(o)) {
+				bad("Equals/ToKey", "differs from the hash of its entries", "same")
+			}
+		}
+		others := []*types.Hash{mk(r.keys, nil).Merge(types.WrapHash([]*types.HashEntry{types.WrapHashEntry(types.WrapInteger(424242), types.WrapInteger(1))})).(*types.Hash)}
+		for i, k := range r.keys {
+			others = append(others, mk(r.keys, map[string]string{k: "424242"}))
+			less := append(append([]string{}, r.keys[:i]...), r.keys[i+1:]...)
+			others = append(others, mk(less, nil))
+			others = append(others, mk(less, nil).Merge(types.WrapHash([]*types.HashEntry{types.WrapHashEntry(types.WrapInteger(424242), valFromText(r.vals[k]))})).(*types.Hash))
+		}
+		for _, o := range others {
+			if hv.Equals(o, nil) || o.Equals(hv, nil) || key == string(px.ToKey(o)) {
+				bad("Equals/ToKey", "same as "+collect(o.Each), "different")
+			}
+		}
+	}); e != nil {
+		fs.add("hash-read-fault", "step %d %s: runtime fault in a read: %v", si, st, e)
+	}
+}
+
 // ==== Array ==============================================================================================================
 
-func arrStr(l px.List) string {
-	if he, ok := l.(*types.HashEntry); ok { // an entry is the sequence of its key and its value
-		return "(a " + show(he.Key()) + " " + show(he.Value()) + ")"
+// seqText prints a value with every hash entry shown as the sequence of its key and its value (at any depth)
+func seqText(v px.Value) string {
+	switch v := v.(type) {
+	case *types.HashEntry:
+		return "(a " + seqText(v.Key()) + " " + seqText(v.Value()) + ")"
+	case *types.Array:
+		parts := []string{"a"}
+		v.Each(func(e px.Value) { parts = append(parts, seqText(e)) })
+		return "(" + strings.Join(parts, " ") + ")"
 	}
-	return show(l.(px.Value))
+	return show(v)
+}
+
+func arrStr(l px.List) string {
+	return seqText(l.(px.Value)) // an entry is the sequence of its key and its value
+}
+
+// valFromText: the value a canonical text denotes (an entry text denotes the array of its two elements)
+func valFromText(t string) px.Value {
+	xs, err := sx.Parse(t)
+	if err != nil || len(xs) != 1 {
+		panic("valFromText: " + t)
+	}
+	return valOf(xs[0])
+}
+
+func refSeqStr(r []string) string { return "(" + strings.Join(append([]string{"a"}, r...), " ") + ")" }
+
+// seqElems: the element texts of a list, by Each
+func seqElems(l px.List) []string {
+	out := []string{}
+	if e := safely(func() { l.Each(func(v px.Value) { out = append(out, seqText(v)) }) }); e != nil {
+		return nil
+	}
+	return out
 }
 
 func unsupported(fault interface{}) bool {
 	return fault != nil && strings.Contains(fmt.Sprint(fault), "Operation not supported")
 }
 
-// entryReads: every read-only query of a hash entry answers as the two-element sequence of its key and value
-func entryReads(he *types.HashEntry, ref []string, fs *failures, si int, st sx.Sexp) {
+// seqReads: every read-only query of a list (an array, or a hash entry = the two-element sequence of its key and value)
+// answers what the sequence `ref` answers.  class = "entry" | "arr" (failure classes <class>-read, <class>-fault)
+func seqReads(l px.List, ref []string, class string, fs *failures, si int, st sx.Sexp) {
 	bad := func(what, got, exp string) {
-		fs.add("entry-read", "step %d %s: entry %s %s answers %s, the sequence answers %s", si, st, arrStr(he), what, got, exp)
+		fs.add(class+"-read", "step %d %s: %s %s answers %s, the sequence answers %s", si, st, arrStr(l), what, got, exp)
 	}
 	join := func(vs []string) string { return strings.Join(vs, " ") }
+	n := len(ref)
 	if e := safely(func() {
-		if he.Len() != 2 || he.IsEmpty() {
-			bad("Len/IsEmpty", fmt.Sprint(he.Len(), he.IsEmpty()), "2 false")
+		if l.Len() != n || l.IsEmpty() != (n == 0) {
+			bad("Len/IsEmpty", fmt.Sprint(l.Len(), l.IsEmpty()), fmt.Sprint(n, n == 0))
 		}
 		got := []string{}
-		he.Each(func(v px.Value) { got = append(got, show(v)) })
+		l.Each(func(v px.Value) { got = append(got, seqText(v)) })
 		if join(got) != join(ref) {
 			bad("Each", join(got), join(ref))
 		}
 		got = []string{}
-		he.EachWithIndex(func(v px.Value, i int) { got = append(got, strconv.Itoa(i)+":"+show(v)) })
-		if join(got) != "0:"+ref[0]+" 1:"+ref[1] {
-			bad("EachWithIndex", join(got), "0:"+ref[0]+" 1:"+ref[1])
+		exp := []string{}
+		l.EachWithIndex(func(v px.Value, i int) { got = append(got, strconv.Itoa(i)+":"+seqText(v)) })
+		for i, x := range ref {
+			exp = append(exp, strconv.Itoa(i)+":"+x)
+		}
+		if join(got) != join(exp) {
+			bad("EachWithIndex", join(got), join(exp))
 		}
 		got = []string{}
-		for _, v := range he.AppendTo([]px.Value{types.WrapInteger(77)}) {
-			got = append(got, show(v))
+		for _, v := range l.AppendTo([]px.Value{types.WrapInteger(77)}) {
+			got = append(got, seqText(v))
 		}
-		if join(got) != "77 "+join(ref) {
+		if join(got) != strings.TrimSpace("77 "+join(ref)) {
 			bad("AppendTo", join(got), "77 "+join(ref))
 		}
-		if a := arrStr(he.AsArray()); a != arrStr(he) {
-			bad("AsArray", a, arrStr(he))
+		if ar, ok := l.(px.Arrayable); ok {
+			if a := arrStr(ar.AsArray()); a != refSeqStr(ref) {
+				bad("AsArray", a, refSeqStr(ref))
+			}
 		}
-		for i := -1; i <= 2; i++ {
+		if a := arrStr(types.WrapArray3(l)); a != refSeqStr(ref) {
+			bad("WrapArray3", a, refSeqStr(ref))
+		}
+		for i := -1; i <= n; i++ {
 			exp := "_"
-			if i >= 0 && i < 2 {
+			if i >= 0 && i < n {
 				exp = ref[i]
 			}
-			if g := show(he.At(i)); g != exp {
+			if g := seqText(l.At(i)); g != exp {
 				bad("At "+strconv.Itoa(i), g, exp)
 			}
 		}
-		for pi, pred := range []func(string) bool{func(x string) bool { return x == ref[0] }, func(x string) bool { return x == ref[1] },
-			func(string) bool { return true }, func(string) bool { return false }} {
-			p := func(v px.Value) bool { return pred(show(v)) }
+		// predicates: "is the i-th distinct element" (the first three), everything, nothing
+		preds := []func(string) bool{func(string) bool { return true }, func(string) bool { return false }}
+		seen := map[string]bool{}
+		for _, x := range ref {
+			if !seen[x] && len(seen) < 3 {
+				seen[x] = true
+				x := x
+				preds = append(preds, func(y string) bool { return y == x })
+			}
+		}
+		for pi, pred := range preds {
+			p := func(v px.Value) bool { return pred(seqText(v)) }
 			sel, rej, all, any, found := []string{}, []string{}, true, false, "_"
 			for _, x := range ref {
 				if pred(x) {
@@ -1510,41 +2097,93 @@ func entryReads(he *types.HashEntry, ref []string, fs *failures, si int, st sx.S
 				}
 			}
 			name := "pred" + strconv.Itoa(pi)
-			if g := strings.TrimSuffix(strings.TrimPrefix(arrStr(he.Select(p)), "(a"), ")"); strings.TrimSpace(g) != join(sel) {
-				bad("Select "+name, g, join(sel))
+			if g := arrStr(l.Select(p)); g != refSeqStr(sel) {
+				bad("Select "+name, g, refSeqStr(sel))
 			}
-			if g := strings.TrimSuffix(strings.TrimPrefix(arrStr(he.Reject(p)), "(a"), ")"); strings.TrimSpace(g) != join(rej) {
-				bad("Reject "+name, g, join(rej))
+			if g := arrStr(l.Reject(p)); g != refSeqStr(rej) {
+				bad("Reject "+name, g, refSeqStr(rej))
 			}
-			if he.All(p) != all || he.Any(p) != any {
-				bad("All/Any "+name, fmt.Sprint(he.All(p), he.Any(p)), fmt.Sprint(all, any))
+			if l.All(p) != all || l.Any(p) != any {
+				bad("All/Any "+name, fmt.Sprint(l.All(p), l.Any(p)), fmt.Sprint(all, any))
 			}
 			g := "_"
-			if v, ok := he.Find(p); ok {
-				g = show(v)
+			if v, ok := l.Find(p); ok {
+				g = seqText(v)
 			}
 			if g != found {
 				bad("Find "+name, g, found)
 			}
 		}
-		m := he.Map(func(v px.Value) px.Value { return types.WrapValues([]px.Value{v}) })
-		if g, exp := arrStr(m), "(a (a "+ref[0]+") (a "+ref[1]+"))"; g != exp {
-			bad("Map", g, exp)
+		m := l.Map(func(v px.Value) px.Value { return types.WrapValues([]px.Value{v}) })
+		exp = []string{}
+		for _, x := range ref {
+			exp = append(exp, "(a "+x+")")
+		}
+		if g := arrStr(m); g != refSeqStr(exp) {
+			bad("Map", g, refSeqStr(exp))
 		}
 		pairUp := func(x, y px.Value) px.Value { return types.WrapValues([]px.Value{x, y}) }
-		if g, exp := show(he.Reduce2(types.WrapInteger(77), pairUp)), "(a (a 77 "+ref[0]+") "+ref[1]+")"; g != exp {
+		fold := func(memo string, xs []string) string {
+			for _, x := range xs {
+				memo = "(a " + memo + " " + x + ")"
+			}
+			return memo
+		}
+		if g, exp := seqText(l.Reduce2(types.WrapInteger(77), pairUp)), fold("77", ref); g != exp {
 			bad("Reduce2", g, exp)
 		}
-		if g, exp := show(he.Reduce(pairUp)), "(a "+ref[0]+" "+ref[1]+")"; g != exp {
-			bad("Reduce", g, exp)
+		expR := "_"
+		if n > 0 {
+			expR = fold(ref[0], ref[1:])
 		}
-		// equal to, and keyed as, the array of the same two elements — in both directions
-		arr := he.AsArray().(px.Value)
-		if !he.Equals(arr, nil) || !arr.Equals(he, nil) || string(px.ToKey(he)) != string(px.ToKey(arr)) {
-			bad("Equals/ToKey", "differs from its array", "same")
+		if g := seqText(l.Reduce(pairUp)); g != expR {
+			bad("Reduce", g, expR)
+		}
+		// every slice of a short list
+		if n <= 4 {
+			for i := 0; i <= n; i++ {
+				for j := i; j <= n; j++ {
+					if g := arrStr(l.Slice(i, j)); g != refSeqStr(ref[i:j]) {
+						bad(fmt.Sprintf("Slice %d %d", i, j), g, refSeqStr(ref[i:j]))
+					}
+				}
+			}
+		}
+		// equal to, and keyed as, the array of the same elements — in both directions; different from, and keyed unlike, an
+		// array with one element more, or with one element replaced
+		vs := make([]px.Value, n)
+		for i, x := range ref {
+			vs[i] = valFromText(x)
+		}
+		lv := l.(px.Value)
+		key := string(px.ToKey(lv))
+		same := types.WrapValues(vs)
+		if !lv.Equals(same, nil) || !same.Equals(lv, nil) || key != string(px.ToKey(same)) {
+			bad("Equals/ToKey", "differs from the array of its elements", "same")
+		}
+		if n == 2 {
+			he := types.WrapHashEntry(vs[0], vs[1])
+			if !lv.Equals(he, nil) || !he.Equals(lv, nil) || key != string(px.ToKey(he)) {
+				bad("Equals/ToKey", "differs from the entry of its two elements", "same")
+			}
+		}
+		marker := types.WrapInteger(424242)
+		others := []*types.Array{types.WrapValues(append(append([]px.Value{}, vs...), marker))}
+		for i := range vs {
+			o := append([]px.Value{}, vs...)
+			o[i] = marker
+			others = append(others, types.WrapValues(o))
+		}
+		if n > 0 {
+			others = append(others, types.WrapValues(append([]px.Value{}, vs[:n-1]...)))
+		}
+		for _, o := range others {
+			if lv.Equals(o, nil) || o.Equals(lv, nil) || key == string(px.ToKey(o)) {
+				bad("Equals/ToKey", "same as "+arrStr(o), "different")
+			}
 		}
 	}); e != nil {
-		fs.add("entry-fault", "step %d %s: runtime fault in a read of entry %s: %v", si, st, arrStr(he), e)
+		fs.add(class+"-fault", "step %d %s: runtime fault in a read of %s: %v", si, st, arrStr(l), e)
 	}
 }
 
@@ -1597,6 +2236,21 @@ func execArr(steps []sx.Sexp, implOnly bool) core.Result {
 					ok = false
 				}
 			}
+		case "nest": // an array whose elements are lists of the pool (arrays and entries); implementation-only
+			ok = implOnly
+			for _, v := range a {
+				ok = ok && isIntAtom(v) && v.MustInt() >= 0
+			}
+		case "ints": // types.WrapInts; implementation-only
+			ok = implOnly
+			for _, v := range a {
+				ok = ok && isIntAtom(v)
+			}
+		case "strs": // types.WrapStrings; implementation-only
+			ok = implOnly
+			for _, v := range a {
+				ok = ok && isKeyAtom(v)
+			}
 		case "add", "delete":
 			ok = len(a) == 2 && isIntAtom(a[0]) && a[0].MustInt() >= 0
 			if ok {
@@ -1624,7 +2278,7 @@ func execArr(steps []sx.Sexp, implOnly bool) core.Result {
 			return core.Result{Out: "bad-op", Pred: "n/a"}
 		}
 	}
-	refStr := func(r []string) string { return "(" + strings.Join(append([]string{"a"}, r...), " ") + ")" }
+	refStr := refSeqStr
 	for si, st := range steps {
 		a := st.Args()
 		op := st.Tag()
@@ -1659,6 +2313,40 @@ func execArr(steps []sx.Sexp, implOnly bool) core.Result {
 			v, _ := valStr(a[1])
 			mk(types.WrapHashEntry(valOf(a[0]), valOf(a[1])), []string{k, v})
 			changed = true
+		case "nest":
+			vs := []px.Value{}
+			r := []string{}
+			for i := range a {
+				s := slot(i)
+				if s == nil {
+					res = "bad-ref"
+					break
+				}
+				vs = append(vs, s.a.(px.Value))
+				r = append(r, refStr(s.ref))
+			}
+			if res != "bad-ref" {
+				mk(types.WrapValues(vs), r)
+				changed = changed || len(vs) > 0
+			}
+		case "ints":
+			is := []int{}
+			r := []string{}
+			for _, v := range a {
+				is = append(is, int(v.MustInt()))
+				r = append(r, strconv.FormatInt(v.MustInt(), 10))
+			}
+			mk(types.WrapInts(is), r)
+			changed = changed || len(is) > 0
+		case "strs":
+			ss := []string{}
+			r := []string{}
+			for _, v := range a {
+				ss = append(ss, v.MustStr())
+				r = append(r, v.Atom)
+			}
+			mk(types.WrapStrings(ss), r)
+			changed = changed || len(ss) > 0
 		case "add":
 			s := slot(0)
 			if s == nil {
@@ -1771,7 +2459,7 @@ func execArr(steps []sx.Sexp, implOnly bool) core.Result {
 					break
 				}
 			}
-			fault = safely(func() { l = sl.Sort(func(x, y px.Value) bool { return show(x) < show(y) }) })
+			fault = safely(func() { l = sl.Sort(func(x, y px.Value) bool { return seqText(x) < seqText(y) }) })
 			if fault == nil {
 				r := append([]string{}, s.ref...)
 				sort.Strings(r)
@@ -1811,7 +2499,7 @@ func execArr(steps []sx.Sexp, implOnly bool) core.Result {
 			wv := valOf(a[1])
 			fault = safely(func() {
 				if v, ok := s.a.Find(func(e px.Value) bool { return e.Equals(wv, nil) }); ok {
-					res = op + "=" + show(v)
+					res = op + "=" + seqText(v)
 				} else {
 					res = op + "=_"
 				}
@@ -1865,7 +2553,7 @@ func execArr(steps []sx.Sexp, implOnly bool) core.Result {
 				break
 			}
 			i := int(a[1].MustInt())
-			fault = safely(func() { res = op + "=" + show(s.a.At(i)) })
+			fault = safely(func() { res = op + "=" + seqText(s.a.At(i)) })
 			exp := op + "=_"
 			if i >= 0 && i < len(s.ref) {
 				exp = op + "=" + s.ref[i]
@@ -1888,8 +2576,10 @@ func execArr(steps []sx.Sexp, implOnly bool) core.Result {
 			break
 		}
 		for _, s := range pool {
-			if he, isEntry := s.a.(*types.HashEntry); isEntry && len(s.ref) == 2 {
-				entryReads(he, s.ref, &fs, si, st)
+			if _, isEntry := s.a.(*types.HashEntry); isEntry && len(s.ref) == 2 {
+				seqReads(s.a, s.ref, "entry", &fs, si, st)
+			} else if s == made && !isEntry && sameStrings(seqElems(s.a), s.ref) {
+				seqReads(s.a, s.ref, "arr", &fs, si, st) // the array this step made (when it is the right one: else reported below)
 			}
 		}
 		if made == nil {
@@ -2182,6 +2872,31 @@ func randEntryArr(r *rand.Rand, n int) string {
 			out = append(out, "(entry "+k+" "+v+")")
 			continue
 		}
+		if st.Tag() == "lit" && i > 1 {
+			switch r.Intn(4) {
+			case 0:
+				refs := []string{}
+				for j := r.Intn(4); j > 0; j-- {
+					refs = append(refs, strconv.Itoa(r.Intn(i)))
+				}
+				out = append(out, "("+strings.TrimSpace("nest "+strings.Join(refs, " "))+")")
+				continue
+			case 1:
+				vs := []string{}
+				for j := r.Intn(4); j > 0; j-- {
+					vs = append(vs, strconv.Itoa(r.Intn(3)))
+				}
+				out = append(out, "("+strings.TrimSpace("ints "+strings.Join(vs, " "))+")")
+				continue
+			case 2:
+				vs := []string{}
+				for j := r.Intn(4); j > 0; j-- {
+					vs = append(vs, randKey(r))
+				}
+				out = append(out, "("+strings.TrimSpace("strs "+strings.Join(vs, " "))+")")
+				continue
+			}
+		}
 		out = append(out, st.String())
 	}
 	return "@earr " + strings.Join(out, " ")
@@ -2209,6 +2924,130 @@ func randGoMapHash(r *rand.Rand, n int) string {
 					ps = append(ps, "("+randKey(r)+" "+v+")")
 				}
 				out = append(out, "("+ctor+" "+strings.Join(ps, " ")+")")
+				continue
+			}
+		}
+		out = append(out, st.String())
+	}
+	return "@ehash " + strings.Join(out, " ")
+}
+
+// arrAlphabet: the small universe of array histories (`L` = the array made by the previous step)
+func arrAlphabet() []string {
+	ops := []string{}
+	for _, v := range []string{"1", k("1"), "(a 1)"} {
+		ops = append(ops, "(add L "+v+")", "(delete L "+v+")")
+	}
+	return append(ops, "(addAll L 0)", "(addAll 0 L)", "(addAll L L)", "(deleteAll L 0)", "(deleteAll 0 L)", "(deleteAll L 1)", "(slice L 1 2)", "(slice L 0 1)",
+		"(unique L)", "(sort L)", "(eachSlice L 2)", "(flatten L)", "(find L (a 1))", "(at L 1)", "(len L)")
+}
+
+// entryArrAlphabet: arrays among whose elements are hash entries, the integer / string wrappers (implementation only)
+func entryArrAlphabet() []string {
+	return []string{"(nest 0 1)", "(nest 1 2 1 3)", "(nest L)", "(nest)", "(flatten L)", "(unique L)", "(delete L (a 1 " + k("1") + "))", "(delete L 2)", "(deleteAll L 0)",
+		"(deleteAll L 3)", "(addAll L 1)", "(addAll 0 L)", "(add L (a 2 2))", "(ints 2 1 2)", "(strs " + k("1") + " " + k("a") + ")", "(sort L)", "(eachSlice L 2)",
+		"(find L (a 2 2))", "(slice L 0 1)"}
+}
+
+// listHashAlphabet: the List forms of Merge, the other constructors, Entries / Unique / Delete on a mutable hash
+// (implementation only).  pool[0] = a mutable hash {1=>5, 'a'=>6}, pool[1] = {1=>1, '1'=>2, [1]=>3}
+func listHashAlphabet() []string {
+	return []string{"(add L 1 9)", "(add L " + k("a") + " 9)", "(adda L (a 1) 9)", "(adda L 2 9)", "(addAll L 1)", "(addAll 1 L)", "(addAll L 0)",
+		"(addAllArr L (" + k("a") + " 7) (1 8))", "(addAllFlat L (" + k("1") + " 7) (2 8))", "(addAllArr L)", "(mergeom L 1)", "(mergeom 1 L)", "(mergeom 0 L)",
+		"(entries L)", "(unique L)", "(entries 0)", "(unique 0)", "(delete 0 1)", "(delete 0 2)", "(deleteAll 0 (" + k("a") + " 1))", "(deleteAll 0 ())",
+		"(mput 0 1 7)", "(mput 0 2 7)", "(mputall 0 L)", "(fromArr (1 1) (" + k("1") + " 2))", "(fromFlat (1 1) ((a 1) 2))", "(indexed 5 6)",
+		"(wrap2 (" + k("a") + " 1) (1 2))", "(shv (" + k("a") + " 1) (" + k("b") + " 2) (" + k("a") + " 3))", "(parsetop (" + k("a") + " (a 1 2)))",
+		"(parsemix (1 1) (" + k("1") + " 2) (1 3) (" + k("a") + " 4))", "(delete L 1)", "(get L 1)"}
+}
+
+// emitOver: every sequence of length n over the alphabet after the base steps (which fill `size` pool slots); noSlot tells
+// which steps add no slot to the pool (or may add none)
+func emitOver(g *core.G, prefix, base string, size0 int, alpha []string, n int, noSlot func(string) bool) {
+	sequences(alpha, n, func(ops []string) {
+		out := []string{base}
+		size := size0
+		for _, o := range ops {
+			out = append(out, strings.Replace(o, " L", " "+strconv.Itoa(size-1), -1))
+			if !noSlot(o) {
+				size++
+			}
+		}
+		g.Emit(prefix + " " + strings.Join(out, " "))
+	})
+}
+
+func hasAnyPrefix(o string, ps ...string) bool {
+	for _, p := range ps {
+		if strings.HasPrefix(o, p) {
+			return true
+		}
+	}
+	return false
+}
+
+// randListHash: a hash history in which the constructors, puts, merges and lookups are (mostly) replaced by their List /
+// foreign-map / other-constructor forms (implementation only)
+func randListHash(r *rand.Rand, n int) string {
+	l := randHash(r, n, false, true)
+	steps, err := sx.Parse("(" + strings.TrimPrefix(l, "hash ") + ")")
+	if err != nil {
+		panic(err)
+	}
+	out := []string{}
+	for _, st := range steps[0].List {
+		a := st.Args()
+		switch st.Tag() {
+		case "wrap", "parse", "parsea", "build":
+			if r.Intn(4) > 0 {
+				ctor := []string{"fromArr", "fromFlat", "wrap2", "shv", "indexed", "parsetop", "parsemix"}[r.Intn(7)]
+				ps := []string{}
+				switch ctor {
+				case "shv":
+					for j := r.Intn(5); j > 0; j-- {
+						ps = append(ps, "("+randKey(r)+" "+randHVal(r)+")")
+					}
+				case "indexed":
+					for j := r.Intn(4); j > 0; j-- {
+						ps = append(ps, randHVal(r))
+					}
+				case "parsetop":
+					ps = append(ps, "("+randHKey(r)+" "+randHVal(r)+")")
+				case "parsemix":
+					ps = append(ps, "("+randHKey(r)+" "+randHVal(r)+")", "("+randHKey(r)+" "+randHVal(r)+")")
+					if more := randPairs(r, r.Intn(8) > 0); more != "" {
+						ps = append(ps, more)
+					}
+				default:
+					if p := randPairs(r, r.Intn(10) > 0); p != "" {
+						ps = append(ps, p)
+					}
+				}
+				out = append(out, "("+strings.TrimSpace(ctor+" "+strings.Join(ps, " "))+")")
+				continue
+			}
+		case "put":
+			if r.Intn(3) > 0 {
+				out = append(out, "("+[]string{"add", "adda"}[r.Intn(2)]+" "+a[0].String()+" "+a[1].String()+" "+a[2].String()+")")
+				continue
+			}
+		case "merge":
+			switch r.Intn(5) {
+			case 0:
+				out = append(out, "(addAll "+a[0].String()+" "+a[1].String()+")")
+				continue
+			case 1:
+				out = append(out, "(mergeom "+a[0].String()+" "+a[1].String()+")")
+				continue
+			case 2:
+				out = append(out, "("+strings.TrimSpace("addAllArr "+a[0].String()+" "+randPairs(r, true))+")")
+				continue
+			case 3:
+				out = append(out, "("+strings.TrimSpace("addAllFlat "+a[0].String()+" "+randPairs(r, true))+")")
+				continue
+			}
+		case "get":
+			if r.Intn(2) == 0 {
+				out = append(out, "("+[]string{"entries", "unique"}[r.Intn(2)]+" "+a[0].String()+")")
 				continue
 			}
 		}
@@ -2340,6 +3179,17 @@ func gen(g *core.G) {
 			g.Emit("hash " + strings.Join(out, " "))
 		})
 	}
+	// arrays: every sequence of length 3 (thorough: 4) over 21 operations on a four-element literal with a repeated element
+	emitOver(g, "arr", "(lit 1 "+k("1")+" (a 1) 1) (lit (a 1) 2)", 2, arrAlphabet(), n-1, func(o string) bool {
+		return hasAnyPrefix(o, "(slice", "(eachSlice", "(find", "(at", "(len")
+	})
+	// implementation only: entries among the elements of arrays; the List forms of Merge and the remaining constructors
+	emitOver(g, "@earr", "(lit 1 "+k("1")+") (entry 1 "+k("1")+") (entry 2 2) (lit (a 1 "+k("1")+") 2)", 4, entryArrAlphabet(), n-1, func(o string) bool {
+		return hasAnyPrefix(o, "(slice", "(eachSlice", "(find")
+	})
+	emitOver(g, "@ehash", "(mnew) (mput 0 1 5) (mput 0 "+k("a")+" 6) (wrap (1 1) ("+k("1")+" 2) ((a 1) 3))", 2, listHashAlphabet(), n-2, func(o string) bool {
+		return hasAnyPrefix(o, "(mput", "(get", "(addAll L 0)")
+	})
 	// 2. random long histories
 	for i := 0; i < 150*g.Scale; i++ {
 		g.Emit(randSH(g.Rng, 100))
@@ -2364,6 +3214,12 @@ func gen(g *core.G) {
 	}
 	for i := 0; i < 600*g.Scale; i++ {
 		g.Emit(randGoMapHash(g.Rng, 2+g.Rng.Intn(8)))
+	}
+	for i := 0; i < 800*g.Scale; i++ {
+		g.Emit(randListHash(g.Rng, 3+g.Rng.Intn(10)))
+	}
+	for i := 0; i < 30*g.Scale; i++ {
+		g.Emit(randListHash(g.Rng, 60))
 	}
 	// 3. malformed stream (outside the quantifier; both sides must still agree)
 	for _, l := range []string{"sh (put a 1)", "sh (frobnicate)", "sh (put x61)", "hash (wrap (1))", "hash (put x 1 2)", "hash (delete 0)",
